@@ -16,6 +16,16 @@ laws are demanded of what the implementation answers.
 Binding B: random same-kind pairs and triples, random lists of length <= 7
 with duplicate keys, random sets and maps; what the implementation answered
 is validated by TLC against Val_Trace.
+
+min / max: the two-argument form, the list form (core.ckl's scan, modelled in
+ValSort.tla as ScanTake / ScanSkip / ScanEnd) and the key argument of both,
+on every same-kind pair (both element orders), on three-element lists drawn
+from the universe, on every run of the scanning machine and on random lists.
+Enumeration: every place where a program enumerates a set or a map
+(enum_sites: comprehension, for loop, list(), spread into a list literal and
+into a call, destructuring def / assignment / loop, sorted() handed a set,
+keys / values / entries of a map).  Dates carry microseconds and years from 1
+on, strings composing and non-BMP characters, decimals single ulps.
 """
 import random
 
@@ -731,14 +741,38 @@ def replay(run, case):
         a = case["v"]
         built = M.build(a, cx.im.refs)
         cx.im.put("ev", built)
-        src = "[x for x in ev]" if a["k"] == "set" else "[x for x in keys ev]"
-        o = cx.im.run(src)
-        if o[0] == "val":
-            ev = {"op": "enum", "v": a, "order": [M.to_abs(x, cx.im.refs) for x in o[1].value]}
-            for kk, why in M.validate(run, [ev], "replay"):
-                run.violation(f"replay-enum:{lit_key(a)} @{why}", f"{why}: rejected by Val_Trace", case)
-        else:
-            run.violation(f"replay-enum:{lit_key(a)}", f"error: {o[1:]}", case)
+        sites = [t for t in enum_sites(a) if t[0] == case.get("src")] or enum_sites(a)
+        evs, names = [], []
+        for src, what, full in sites:
+            o = cx.im.run(src)
+            if o[0] == "val":
+                evs.append({"op": "enum", "v": a, "order": [M.to_abs(x, cx.im.refs, True) for x in o[1].value],
+                            "what": what, "full": full})
+                names.append(src)
+            else:
+                run.violation(f"replay-enum:{lit_key(a)}:{src}", f"error: {o[1:]}", case)
+        for kk, why in M.validate(run, evs, "replay"):
+            run.violation(f"replay-enum:{lit_key(a)}:{names[kk]} @{why}", f"{why}: rejected by Val_Trace", case)
+    elif k == "minmax":
+        inp = case["inp"]
+        objs = [M.build(e, cx.im.refs) for e in inp]
+        lst = V.ValueList()
+        for ob in objs:
+            lst.addItem(ob)
+        cx.im.put("sl", lst)
+        evs, names = [], []
+        for m in ("min", "max"):
+            for key in ((False, True) if all(e["k"] == "list" and e["items"] for e in inp) else (False,)):
+                src = f"{m}(sl, key = fn(x) x[0])" if key else f"{m}(sl)"
+                o = cx.im.run(src)
+                if o[0] == "val":
+                    evs.append({"op": "minmax", "m": m, "key": key, "inp": inp, "which": which_of(objs, o[1])})
+                    names.append(src)
+                else:
+                    run.violation(f"replay-minmax:{src}", f"error: {o[1:]}", case)
+        for kk, why in M.validate(run, evs, "replay"):
+            run.violation(f"replay-minmax:{names[kk]} on {M.literal(M.a_list(inp))} @{why}",
+                          f"{why}: rejected by Val_Trace", case)
     elif k == "trace":
         for kk, why in M.validate(run, case["events"], "replay"):
             run.violation(f"replay-trace:{case['meta'][kk]} @{why}", f"{why}: rejected by Val_Trace", case)
